@@ -95,6 +95,7 @@ class GenOpts:
     want_multiclient: bool = False  # force one interface suitable as multi-client port
     nested_enum: float = 0.5
     multi_id_names: float = 0.0     # declaration names with 2 identifiers (parser only)
+    mc_decoys: str = 'random'       # random | both | literal: decoy events called Claim/Release
 
 
 @dataclass
@@ -265,6 +266,8 @@ class ModelGen:
         self.interfaces.append(ent)
         taken = {t.name[0] for t in itf.types if not isinstance(t, M.Unknown)}
         literal = rng.random() < 0.3
+        if self.o.mc_decoys in ('both', 'literal'):
+            literal = self.o.mc_decoys == 'literal'
         claim = 'Claim' if literal else fresh(rng, taken, rng.choice(['camel', 'snake', 'digit']))
         release = 'Release' if literal else fresh(rng, taken, rng.choice(['camel', 'snake', 'digit']))
         taken.update([claim, release])
@@ -289,11 +292,11 @@ class ModelGen:
         events = [M.Event(claim, 'in', reply, formals('in')),
                   M.Event(release, 'in', M.Ref(['void']), formals('in'))]
         if decoys and not literal:
-            if rng.random() < 0.5:
+            if rng.random() < 0.5 or self.o.mc_decoys == 'both':
                 events.append(M.Event('Claim', 'in', M.Ref(list(reply.ids), reply.target),
                                       formals('in')))
                 taken.add('Claim')
-            if rng.random() < 0.5:
+            if rng.random() < 0.5 or self.o.mc_decoys == 'both':
                 events.append(M.Event('Release', 'in', M.Ref(['void']), formals('in')))
                 taken.add('Release')
         for _ in range(rng.randint(0, 3)):
